@@ -423,6 +423,8 @@ type walker struct {
 	ces      []region
 	noPX     []string
 	reloc    []relocCheck
+	reSeen   []uint32 // extents of records carrying RE
+	clSeen   []uint32 // CL targets
 }
 
 type relocCheck struct {
@@ -699,8 +701,14 @@ func (w *walker) walkDir(ext, size, parentExt, parentSize uint32, path string, d
 			if isRoot {
 				w.v.EREntries = si.er
 			}
-			if relocated && si.hasPL && si.pl != logicalParent {
-				w.prob("susp", path, "PL of relocated directory points to block %d, logical parent is at block %d", si.pl, logicalParent)
+			if si.hasPL {
+				w.prob("rr-relocation", path, "PL entry (block %d) in the \".\" record at %d; RRIP 4.1.5.2 records PL in the \"..\" record of the moved directory", si.pl, r.off)
+			}
+			if si.re {
+				w.prob("rr-relocation", path, "RE entry in the \".\" record at %d; RRIP 4.1.5.3 records RE only in the foster parent's record for the moved directory", r.off)
+			}
+			if si.hasCL {
+				w.prob("rr-relocation", path, "CL entry in the \".\" record at %d", r.off)
 			}
 		}
 		start = 1
@@ -724,7 +732,21 @@ func (w *walker) walkDir(ext, size, parentExt, parentSize uint32, path string, d
 			w.prob("dot-entries", path, "\"..\" record at %d lacks the directory flag (flags %#x)", r.off, r.b[25])
 		}
 		if !w.joliet {
-			w.parseSUSP(r, path, false)
+			si := w.parseSUSP(r, path, false)
+			switch {
+			case relocated && !si.hasPL:
+				w.prob("rr-relocation", path, "\"..\" record at %d of the relocated directory has no PL entry (logical parent is at block %d, \"..\" points to block %d)", r.off, logicalParent, e)
+			case relocated && si.pl != logicalParent:
+				w.prob("rr-relocation", path, "PL in the \"..\" record at %d points to block %d, the logical parent (holder of the CL record) is at block %d", r.off, si.pl, logicalParent)
+			case !relocated && si.hasPL:
+				w.prob("rr-relocation", path, "PL entry (block %d) in the \"..\" record at %d of a directory that was not reached through CL", si.pl, r.off)
+			}
+			if si.re {
+				w.prob("rr-relocation", path, "RE entry in the \"..\" record at %d; RRIP 4.1.5.3 records RE only in the foster parent's record for the moved directory", r.off)
+			}
+			if si.hasCL {
+				w.prob("rr-relocation", path, "CL entry in the \"..\" record at %d", r.off)
+			}
 		}
 		start = 2
 	} else if start == 1 {
@@ -827,10 +849,14 @@ func (w *walker) walkDir(ext, size, parentExt, parentSize uint32, path string, d
 
 		if !w.joliet && si.re {
 			// relocated directory in its physical place: part of the physical hierarchy only
+			if si.hasPL {
+				w.prob("rr-relocation", n.Path, "PL entry (block %d) in the foster parent's record at %d; RRIP 4.1.5.2 records PL in the \"..\" record of the moved directory", si.pl, r.off)
+			}
+			w.reSeen = append(w.reSeen, n.Extent)
 			if n.IsDir {
 				w.phys = append(w.phys, physDir{ext: n.Extent, parent: ext, name: string(name), path: n.Path})
 			} else {
-				w.prob("susp", n.Path, "RE entry on a non-directory record at %d", r.off)
+				w.prob("rr-relocation", n.Path, "RE entry on a non-directory record at %d", r.off)
 			}
 			continue
 		}
@@ -839,7 +865,7 @@ func (w *walker) walkDir(ext, size, parentExt, parentSize uint32, path string, d
 		}
 		if !w.joliet && si.hasCL {
 			if n.IsDir {
-				w.prob("susp", n.Path, "CL entry on a record at %d that has the directory flag", r.off)
+				w.prob("rr-relocation", n.Path, "CL entry on a record at %d that has the directory flag", r.off)
 			}
 			n.IsDir = true
 			n.Relocated = true
@@ -855,16 +881,17 @@ func (w *walker) walkDir(ext, size, parentExt, parentSize uint32, path string, d
 					w.prob("dot-entries", n.Path, "\".\" record of CL target block %d points to block %d", si.cl, te)
 				}
 			} else {
-				w.prob("susp", n.Path, "CL at %d points to block %d which does not start with a \".\" record", r.off, si.cl)
+				w.prob("rr-relocation", n.Path, "CL at %d points to block %d which does not start with a \".\" record", r.off, si.cl)
 				w.v.Nodes = append(w.v.Nodes, n)
 				continue
 			}
 			if first, seen := w.visited[n.Extent]; seen {
-				w.prob("susp", n.Path, "CL target block %d was already reached as %q through a record without RE", n.Extent, first)
+				w.prob("rr-relocation", n.Path, "CL target block %d was already reached as %q through a record without RE", n.Extent, first)
 				w.v.Nodes = append(w.v.Nodes, n)
 				continue
 			}
 			w.v.Nodes = append(w.v.Nodes, n)
+			w.clSeen = append(w.clSeen, n.Extent)
 			w.walkDir(n.Extent, n.Size, ext, size, n.Path, depth+1, false, true, ext)
 			continue
 		}
@@ -1448,6 +1475,21 @@ func (w *walker) finish() {
 			w.prob("dot-entries", rc.path, "\"..\" record of relocated directory points to block %d which is no directory of the tree", rc.dotdot)
 		}
 	}
+	reSet, clSet := map[uint32]bool{}, map[uint32]bool{}
+	for _, e := range w.reSeen {
+		reSet[e] = true
+	}
+	for _, e := range w.clSeen {
+		clSet[e] = true
+		if !reSet[e] {
+			w.prob("rr-relocation", w.visited[e], "directory at block %d is the target of a CL entry but no record with RE describes it", e)
+		}
+	}
+	for _, e := range w.reSeen {
+		if !clSet[e] {
+			w.prob("rr-relocation", "", "record with RE describes the directory at block %d but no CL entry points to it (directory unreachable)", e)
+		}
+	}
 	w.v.HasRockRidge = w.hasSP || w.rrSeen
 	if w.hasSP && (w.erRRIP || w.rrSeen) {
 		for _, p := range w.noPX {
@@ -1536,6 +1578,20 @@ func (w *walker) overlaps(regs, ces []region, keep func(a, b region) bool) {
 func (p *parser) crossOverlaps(pw, jw *walker) {
 	if pw == nil || jw == nil {
 		return
+	}
+	pdirs := map[uint32]string{}
+	for _, r := range pw.regions {
+		if r.kind == "dir" {
+			pdirs[r.ext] = r.path
+		}
+	}
+	for _, r := range jw.regions {
+		if r.kind != "dir" {
+			continue
+		}
+		if pp, ok := pdirs[r.ext]; ok {
+			p.prob("joliet-shares-primary-dir", r.path, "[joliet] directory record for %q points to block %d, which is the primary tree's directory %q (ISO9660 identifiers, not UCS-2)", r.path, r.ext, pp)
+		}
 	}
 	all := append(append([]region(nil), pw.regions...), jw.regions...)
 	jw2 := &walker{p: p, v: jw.v, bs: jw.bs, tag: "[primary-vs-joliet] "}
